@@ -571,7 +571,14 @@ pub fn try_stmt(g: &mut Gen, out: &mut Vec<Stmt>) {
     g.pop_scope();
     g.pop_try();
     let catch = if has_catch {
-        let e = g.fresh_pub("e");
+        // (the handler variable sometimes takes the name of an outer variable)
+        let e = match g.shadowable_name_pub() {
+            Some(n) if g.rd.chance(1, 8) => {
+                g.label_pub("catch_var_shadows");
+                n
+            }
+            _ => g.fresh_pub("e"),
+        };
         g.push_try(TryPosPub::Catch(has_finally));
         g.push_scope();
         g.declare_pub(&e, Kind::Any, false);
